@@ -541,6 +541,13 @@ pub fn build_hand(name: &str, rng: &mut Rng) -> Built {
             alphabets = vec![if rng.chance(1, 2) { int_f32_alpha() } else { wave_alpha() }];
             rig1::<f32, Complex>(rng, |r| bx!(Hilbert::new(r, ntaps, &rustradio::window::WindowType::Hamming)))
         }
+        "fftstream_x" => {
+            // sizes whose DFT is exact over the Gaussian integers (twiddles 1, -i, -1, i): compared with the model
+            let size = *rng.pick(&[1usize, 2, 4, 4]);
+            params = vec![size as u64];
+            alphabets = vec![complex_alpha(rng)];
+            rig1::<Complex, Complex>(rng, |r| bx!(FftStream::new(r, size)))
+        }
         "fftstream" => {
             let size = *rng.pick(&[1usize, 2, 4, 8, 16, 64, 100, 512]);
             params = vec![size as u64];
@@ -1121,6 +1128,48 @@ pub fn eof_probes(rng: &mut Rng) -> Vec<String> {
     out
 }
 
+/// C19 with outputs that have DIFFERENT amounts of room: one call processes min over ALL outputs (and inputs),
+/// whichever output is the tightest, and commits the same number of samples on every output.
+pub fn uneven_output_probes(rng: &mut Rng) -> Vec<String> {
+    let mut out = vec![];
+    for (nin, nout) in [(1usize, 2usize), (1, 3), (2, 2), (2, 3), (3, 3)] {
+        for tight in 0..nout {
+            let mut rig = arity_rig(rng, nin, nout);
+            let cap = rig.outs[0].cap();
+            let k = cap - rng.range(0, 40);
+            let vals: Vec<u64> = (0..k).map(|i| (i % 1000) as u64).collect();
+            for j in 0..nin {
+                rig.ins[j].push(&vals, &[]);
+            }
+            let first = quiet(|| rig.block.work().map(|_| ()).map_err(|e| e.to_string()));
+            // drain: the tight output the least
+            let mut room = vec![0usize; nout];
+            for j in 0..nout {
+                let d = if j == tight { rng.range(1, 20) } else { rng.range(100, 600) };
+                rig.outs[j].drain(d);
+                room[j] = cap - rig.outs[j].len();
+            }
+            let more: Vec<u64> = (0..cap).map(|i| (7 * i % 1000) as u64).collect();
+            for j in 0..nin {
+                rig.ins[j].push(&more, &[]);
+            }
+            let before: Vec<usize> = (0..nout).map(|j| rig.outs[j].len()).collect();
+            let second = quiet(|| rig.block.work().map(|_| ()).map_err(|e| e.to_string()));
+            // (after a panic inside work() the stream's mutex is poisoned: looking at it panics again)
+            let got: Vec<usize> = quiet(|| (0..nout).map(|j| rig.outs[j].len() - before[j]).collect::<Vec<usize>>()).unwrap_or_default();
+            let want = *room.iter().min().unwrap();
+            let v = match (first, second) {
+                (Err(p), _) | (_, Err(p)) => format!("FAIL panic: {p}"),
+                (Ok(Err(e)), _) | (_, Ok(Err(e))) => format!("FAIL error: {e}"),
+                _ if got.iter().all(|g| *g == want) => "pass".to_string(),
+                _ => format!("FAIL room {room:?}: one call committed {got:?}, specification: {want} on every output"),
+            };
+            out.push(format!("!uneven arity {nin} {nout} tightest-output={tight} room={room:?}\t{v}\t{}", if v == "pass" { "" } else { "uneven-outputs" }));
+        }
+    }
+    out
+}
+
 /// C19 on default-size (4 MB) streams: one call of a generated sync `work()` processes exactly
 /// min(shortest input, smallest output space) steps, however many that is.
 pub fn big_step_probes(rng: &mut Rng) -> Vec<String> {
@@ -1385,7 +1434,7 @@ pub fn run(args: &[String]) -> Vec<String> {
     let only_block = arg(args, "--block");
     let mut out = Vec::new();
     let names: Vec<&str> = match set.as_str() {
-        "modelled" => SYNC_NAMES.iter().chain(ARITY_NAMES.iter()).chain(["skip", "delay", "resampler", "rtlsdr", "s2pdu", "totext", "audec", "zerocross", "zerocross_clk", "symsync", "symsync_clk", "v2s", "constsrc", "delayctl", "auenc"].iter()).copied().collect(),
+        "modelled" => SYNC_NAMES.iter().chain(ARITY_NAMES.iter()).chain(["skip", "delay", "resampler", "rtlsdr", "s2pdu", "totext", "audec", "zerocross", "zerocross_clk", "symsync", "symsync_clk", "v2s", "constsrc", "delayctl", "auenc", "fftstream_x"].iter()).copied().collect(),
         "sync" => SYNC_NAMES.to_vec(),
         "arity" => ARITY_NAMES.to_vec(),
         "hand" => HAND_NAMES.to_vec(),
@@ -1412,6 +1461,8 @@ pub fn run(args: &[String]) -> Vec<String> {
         out.extend(eof_probes(&mut r));
         let mut r = rng.fork();
         out.extend(big_step_probes(&mut r));
+        let mut r = rng.fork();
+        out.extend(uneven_output_probes(&mut r));
     }
     for _ in 0..arg_usize(args, "--zc-ideal", 0) {
         let mut r = rng.fork();
